@@ -1,5 +1,8 @@
 use core::ops::Bound::{Included, Unbounded};
-use std::{cmp::max, collections::BTreeMap};
+use std::{
+  cmp::{max, min},
+  collections::BTreeMap,
+};
 
 #[allow(unused_imports)]
 use log::{debug, error, info, trace, warn};
@@ -13,6 +16,12 @@ use crate::{
     time::Timestamp,
   },
 };
+
+// An ACKNACK can request at most 256 sequence numbers.
+const MAX_MISSING_SEQNUMS: usize = 256;
+// How far ahead of the first missing sequence number we keep "not available"
+// markers for individual sequence numbers.
+const MAX_IRRELEVANT_MARKERS_AHEAD: i64 = 1024;
 
 #[derive(Debug)] // these are not cloneable, because contained data may be large
 pub(crate) struct RtpsWriterProxy {
@@ -177,7 +186,13 @@ impl RtpsWriterProxy {
     let mut known_head = known_iter.next();
 
     // Iterate over all SequenceNumbers (indices) in the advertised range.
+    // The range comes from the network, so it can be arbitrarily large. We
+    // cannot request more than what fits in one ACKNACK anyway, so stop after
+    // collecting that many.
     for s in relevant_interval {
+      if missing_seqnums.len() >= MAX_MISSING_SEQNUMS {
+        break;
+      }
       match known_head {
         None => missing_seqnums.push(s), // no known changes left => s is missing
         Some(known_sn) => {
@@ -279,11 +294,20 @@ impl RtpsWriterProxy {
         self.ack_base, remove_from, remove_until_before, self.remote_writer_guid
       );
     } else {
-      // TODO: This potentially generates a very large BTreeMap
-      for na in
-        SequenceNumber::range_inclusive(remove_from, remove_until_before - SequenceNumber::new(1))
-      {
-        self.changes.insert(na, None);
+      // The range comes from the network, so it can be arbitrarily large, and here
+      // we need a marker for each sequence number. Do not look further ahead than
+      // a few ACKNACK windows from what we are still missing: If the rest ever
+      // becomes interesting, we will ask for it, and the writer tells us again.
+      let remove_until_before = min(
+        remove_until_before,
+        self.ack_base + SequenceNumber::from(MAX_IRRELEVANT_MARKERS_AHEAD),
+      );
+      if remove_from < remove_until_before {
+        for na in
+          SequenceNumber::range_inclusive(remove_from, remove_until_before - SequenceNumber::new(1))
+        {
+          self.changes.insert(na, None);
+        }
       }
     }
   }
